@@ -128,6 +128,24 @@ def run(rep: common.Report, tier: str, seed: int, replay=None) -> int:
             seed_sol = tdgl.solve(other, SolverOptions(**good))
             expect_rejected(rep, "seed solution from a different device", f"dev{di}",
                             lambda out: solve(dev, out, seed_solution=seed_sol), td, f"a{n}"); n += 1
+            # the same film and mesh, but fewer / no terminals (a different device all the same), in both directions
+            if len(dev.terminals) >= 1:
+                for keep in ([], list(dev.terminals[:-1])):
+                    if len(keep) == len(dev.terminals):
+                        continue
+                    sub = tdgl.Device(dev.name, layer=dev.layer, film=dev.film, holes=list(dev.holes),
+                                      terminals=[t_.copy() for t_ in keep], probe_points=dev.probe_points,
+                                      length_units=dev.length_units)
+                    sub.mesh = dev.mesh
+                    try:
+                        seed_sub = tdgl.solve(sub, SolverOptions(**good))
+                        seed_full = tdgl.solve(dev, SolverOptions(**good))
+                    except Exception:  # noqa: BLE001
+                        continue
+                    expect_rejected(rep, "seed solution from a different device", f"dev{di} seed has {len(keep)} of {len(dev.terminals)} terminals",
+                                    lambda out: solve(dev, out, seed_solution=seed_sub), td, f"a{n}"); n += 1
+                    expect_rejected(rep, "seed solution from a different device", f"dev{di} seed has {len(dev.terminals)} terminals, target {len(keep)}",
+                                    lambda out: solve(sub, out, seed_solution=seed_full), td, f"a{n}"); n += 1
             # same device description, different mesh
             twin = dev.copy(with_mesh=False)
             twin.make_mesh(max_edge_length=1.1, smooth=1)
